@@ -22,7 +22,8 @@ RULE = (
     "Generated: C01-style races (1-4 elements, parallel elements, completed-by, 1-3 hosts x 1-4 cores, message delays up to 7 s, "
     "wake-up lateness) with some steps longer than the 30 s post-processing interval, requests with 1-2 dependent sub-requests, "
     "error outcomes under on-error=continue, pre-emption windows {0, 1/1024, 1/64, 1/8} s at Future.done() inside actor handlers (executor "
-    "thread work happening while a handler runs); settings class: default | down-sample factor 2 or 7 | sample queue size 1-3. "
+    "thread work happening while a handler runs); settings class: default | down-sample factor 2 or 7 | sample queue size 1-3; 1 in 40: a burst task of 1 500-20 000 requests "
+    "within one wake-up interval (plus a fixed replay case with 72 000). "
     "Non-trivial = >= 2 workers and >= 2 steps and at least one periodic post-processing tick stored records inside a step. "
     "Distinct = distinct canonical JSON."
 )
@@ -59,6 +60,16 @@ def _case(draw, known):
             leaf.pop("throughput", None)
             for q in leaf["requests"]:
                 q["wire"][0][1] = draw(st.sampled_from([1.0, 2.5]))
+    if draw(st.integers(0, 39)) == 0:
+        # volume: thousands of samples queue up in one worker between two wake-ups (the default queue of 2^20 is nowhere near full)
+        plain = [l for l in leaves if l["mode"] == "iterations"]
+        if plain:
+            leaf = plain[draw(st.integers(0, len(plain) - 1))]
+            leaf["warmup_iterations"] = None
+            leaf["iterations"] = draw(st.sampled_from([1500, 6000, 20000])) // leaf["clients"]
+            leaf.pop("throughput", None)
+            leaf["requests"] = [{"pre": 0, "wire": [[0, 1 / 8192]], "post": 0, "outcome": "ok", "shape": "dict", "weight": 1, "unit": "ops"}]
+            case["volume"] = True
     setting = draw(st.sampled_from(["default", "default", "default", "downsample", "tiny-queue"]))
     if setting == "downsample":
         case["downsample"] = draw(st.sampled_from([2, 7]))
@@ -226,6 +237,8 @@ def run_case(case, obs):
         obs.cls("sub-requests")
     if default:
         obs.cls("default-settings")
+    if case.get("volume"):
+        obs.cls("volume")
     if r.rt.stats.get("preemptions_with_work"):
         obs.cls("preempted-handler")
     obs.mark_nontrivial(n_workers >= 2 and steps >= 2 and tick_inside)
